@@ -798,7 +798,7 @@ def e_tr_als_sampled(g):
 
     shape = g.shape3()
     rank = g.choice([[2, 2, 2, 2], 2])
-    kw = dict(tensor=g.low_rank(shape, 2), rank=rank, n_samples=g.choice([6, 4, [5, 6, 4]]), n_iter_max=g.choice([2, 1, 3]))
+    kw = dict(tensor=g.low_rank(shape, 2), rank=rank, n_samples=g.choice([6, 4, [5, 6, 4], [3, 2, 5], (5, 6, 4), [1, 1, 1]]), n_iter_max=g.choice([2, 1, 3]))
     g.opt(kw, "uniform_sampling", [True], 0.3)
     g.opt(kw, "randomized_error", [True], 0.5)
     g.opt(kw, "tol", [0], 0.3)
@@ -827,7 +827,7 @@ def e_TRALSS(g):
     import tensorly.decomposition as D
 
     shape = g.shape3()
-    kw = dict(rank=2, n_samples=5, n_iter_max=2, random_state=g.seed())
+    kw = dict(rank=2, n_samples=g.choice([5, [5, 4, 6], [2, 3, 2]]), n_iter_max=2, random_state=g.seed())
     tensor = g.low_rank(shape, 2)
 
     def fn(tensor, **opts):
